@@ -153,7 +153,11 @@ CHECKS = {
             "matrix the arguments denote (bool/int-default flags that do not enter _size: upper, dim) are consulted by "
             "to_dense and by _matmul alike, and by _t_matmul/_diagonal/_get_indices/_getitem at least as much - if one "
             "sibling branches on the flag and another does not, the operator multiplies as a different matrix than it "
-            "densifies to for one value of the flag. Decided for all values, shapes and nestings at once. NOT "
+            "densifies to for one value of the flag; (D) the floating buffers of the product / densification kernels "
+            "(utils/toeplitz, sparse, interpolation ..., _matmul / to_dense families) carry an operand's dtype, so a "
+            "float64 product is not rounded through float32; (Q) an argument-less squeeze() whose result is used as a "
+            "subscript index sits behind an explicit element-count test (else the size-1 case loses a dimension). "
+            "Decided for all values, shapes and nestings at once. NOT "
             "decided: numerical agreement of matmul / transpose / to_dense (FFT, Kronecker reshapes, interpolation).",
             TRUST, "DESIGN.md section 3, C01"),
     "C07": (True,
